@@ -4,6 +4,7 @@ import (
 	"fmt"
 	"go/token"
 	"go/types"
+	"regexp"
 	"strings"
 
 	"tcheck/ir"
@@ -71,6 +72,9 @@ func K8(rc *RC, floor int) {
 	}
 }
 
+// k8Merged: ((K && mask) || P)  or  (P || (K && mask)), K and mask in either order
+var k8Merged = regexp.MustCompile(`^\(\(([^()]+)\) \|\| (.+)\)$|^\((.+) \|\| \(([^()]+)\)\)$`)
+
 func checkMaskArm(name string, tree []*ir.Node) (problem, detail string) {
 	// locals: data = $r.<T>s(), mask = $r.mask
 	var data, mask string
@@ -95,11 +99,47 @@ func checkMaskArm(name string, tree []*ir.Node) (problem, detail string) {
 	if data == "" {
 		data = "$r.<T>s()"
 	}
-	if ifn == nil {
-		return "structural: no branch on maskIsSoft in this arm", ""
-	}
 	a := data + "[@r]"
 	want, _ := maskPredicate(name, a, "$0.(τ)", "$1.(τ)")
+	if ifn == nil {
+		// the merged form: one loop, mask[i] = (K && mask[i]) || P(a), where K says "hard"
+		lets := map[string]string{}
+		var loop *ir.Node
+		for _, n := range tree {
+			if n.Kind == "let" {
+				lets[n.Target] = n.Value
+			}
+			if n.Kind == "range" && n.Head == "range "+data+" as @r" && loop == nil {
+				loop = n
+			}
+		}
+		if loop != nil && len(loop.Kids) == 1 && loop.Kids[0].Kind == "store" && loop.Kids[0].Target == mask+"[@r]" {
+			v := loop.Kids[0].Value
+			m := k8Merged.FindStringSubmatch(v)
+			if m != nil {
+				var k, pred string
+				for _, cand := range [][2]string{{m[1], m[2]}, {m[4], m[3]}} {
+					if cand[0] != "" {
+						k, pred = cand[0], cand[1]
+					}
+				}
+				k = strings.TrimSuffix(strings.TrimPrefix(k, mask+"[@r] && "), " && "+mask+"[@r]")
+				if d, ok := lets[k]; ok {
+					k = d
+				}
+				switch k {
+				case "!$r.maskIsSoft":
+					if pred != want && ambig(pred) != ambig(want) {
+						return fmt.Sprintf("merged form stores %s, want %s", pred, want), ""
+					}
+					return "", "merged: " + mask + "[@r] = (hard && " + mask + "[@r]) || " + want
+				case "$r.maskIsSoft":
+					return "merged form keeps the previous mask when the mask is SOFT and replaces it when it is hard: the polarity of the keep flag is inverted (soft replaces, hard adds)", ""
+				}
+			}
+		}
+		return "structural: no branch on maskIsSoft in this arm", ""
+	}
 	one := func(ns []*ir.Node, hard bool) string {
 		if len(ns) != 1 || ns[0].Kind != "range" || ns[0].Head != "range "+data+" as @r" {
 			return "structural: branch is not a single loop over the data"
